@@ -326,13 +326,17 @@ def OSt.regObserve (s : OSt) (h : Nat) : OSt :=
   | some l' => { s with it := some (some l') }
   | none => { s with it := some (some (l ++ [⟨.observe, h, 1⟩])) }
 
-/-- `obj.observe(h, "name", remove=True)`: `remove_from`; `NotifierNotFound` when absent. -/
+/-- `obj.observe(h, "name", remove=True)`: `remove_from`; `NotifierNotFound` when absent.
+Removal walks the steps in reverse (observation/_observe.py:87-90): the
+`trait_added` extra graph is visited first and raises before the named trait is
+touched, so a failed removal has no effect on this attribute. -/
 def OSt.unregObserve (s : OSt) (h : Nat) : Option Exc × OSt :=
-  let s := s.ensureItrait
-  let l := (s.it.getD none).getD []
-  if l.any (fun n => n.kind = .observe ∧ n.h = h) then
-    (none, { s with it := some (some (releaseFirst h l)) })
-  else (some .notifierNotFound, { s with it := some (some l) })
+  match s.it with
+  | some (some l) =>
+    if l.any (fun n => n.kind = .observe ∧ n.h = h) then
+      (none, { s with it := some (some (releaseFirst h l)) })
+    else (some .notifierNotFound, s)
+  | _ => (some .notifierNotFound, s)
 
 /-! ### Histories on one (object, attribute) pair (property C02) -/
 
